@@ -195,7 +195,7 @@ class DualQuaternion:
             real = left.real * right.real
             dual = left.real * right.dual + left.dual * right.real
 
-            if isinstance(left, UnitDualQuaternion) and isinstance(left, UnitDualQuaternion):
+            if isinstance(left, UnitDualQuaternion) and isinstance(right, UnitDualQuaternion):
                 return UnitDualQuaternion(real, dual)
             else:
                 return DualQuaternion(real, dual)
@@ -204,6 +204,8 @@ class DualQuaternion:
             # transforming a point needs the conjugate that also negates the dual part
             vp = left * DualQuaternion.Pure(v) * DualQuaternion(left.real.conj(), -1 * left.dual.conj())
             return vp.dual.v
+        else:
+            raise ValueError('bad operands')
 
     def matrix(self):
         """
